@@ -33,3 +33,11 @@ claim('C11', 'property-based testing: returned define table vs. reference model;
       'Exploration: ~40 000 generated programs whose returned table (names, formals, defaults, body text) must equal the model\'s, and ~30 000 programs cut into 2-4 parts where threading the returned table through successive runs must give byte-identical text and the same final table (positions aside) as one run over the concatenation.',
       'SV_COV_* constants are left aside as the property states; parts end with a newline outside conditionals.',
       'DESIGN.md 6 C11')
+claim('C06', 'property-based testing: generated directive-free texts over the full lexical alphabet (identity + per-byte origin), arbitrary character soups (rejection only for stated lexical faults), re-preprocessing of generated programs\' outputs (fixed point)',
+      'Exploration: ~60 000 well-formed directive-free texts must come back byte-identical with origin(i) == (path, i) at every i; ~60 000 arbitrary backtick-free soups may be rejected only when an independent lexer finds an unterminated string / block comment or lone backslash (and then as Error::Preprocess); ~15 000 successful outputs of generated preprocessor programs are fed back and must be fixed points. Known finding K1 is classified by an exact predictor of the duplicated output.',
+      'Trusts the harness lexer as the definition of lexical well-formedness and the RC1 predictor (harness/src/gen/textgen.rs) for classifying K1 only.',
+      'DESIGN.md 6 C06')
+claim('C18', 'property-based testing: metamorphic relation strip_comments on/off over directive-free texts, comment-as-sole-separator texts and generated preprocessor programs',
+      'Exploration: ~105 000 (quick) inputs are preprocessed with and without strip_comments; the non-comment token sequences, returned define tables and errors must be identical and the stripped output must hold no comment outside kept `define lines.',
+      'A comment surviving because it is owned by a string / escaped identifier is classified as listed finding K1 (structural check on the position of every surviving comment).',
+      'DESIGN.md 6 C18')
